@@ -73,6 +73,17 @@ func (c *Cluster) AllDone() bool {
 	return any
 }
 
+// HonestLiveOrAll lists the honest nodes (started or not).
+func (c *Cluster) HonestLiveOrAll() []*Node {
+	var res []*Node
+	for _, n := range c.Nodes {
+		if n.Role == Honest {
+			res = append(res, n)
+		}
+	}
+	return res
+}
+
 // AllValidatorsDone tells whether every live honest node that takes an active part reached the target height.
 func (c *Cluster) AllValidatorsDone() bool {
 	any := false
